@@ -531,7 +531,7 @@ fn explore(ctx: &Ctx, rep: &mut Report) {
             ("bytes27/len<=3/full-sweep", &a27, 3, &all_offs, 2, true),
             ("bytes27/len<=4/sweep", &a27, 4, &mid_offs, 1, false),
             ("bytes27/len<=5/reduced-sweep", &a27, 5, &two_offs, 0, false),
-            ("classA/len<=6/full-sweep", &ca, 6, &all_offs, 1, true),
+            ("classA/len<=6/boundary-sweep", &ca, 6, &q_offs, 1, true),
             ("classA/len<=8/reduced-sweep", &ca, 8, &two_offs, 0, false),
             ("classB/len<=7/sweep", &cb, 7, &few_offs, 1, false),
         ]
